@@ -949,6 +949,11 @@ func makeHTTPTypeRecursive(att *expr.AttributeExpr, seen map[string]struct{}) *e
 				}
 			}
 			att.DefaultValue = dt.Attribute().DefaultValue
+			if _, ok := att.Type.(expr.UserType); ok {
+				// The aliased type is itself a user type (alias of an
+				// alias): flatten it as well.
+				return makeHTTPTypeRecursive(att, seen)
+			}
 		}
 		if _, ok := seen[dt.ID()]; ok {
 			return att
